@@ -100,6 +100,9 @@ func ValueLabels(t *TSpec, v Val) []string {
 			if len(v.M) > 1 {
 				seen["V:multi-entry-map"] = true
 			}
+			if len(v.M) >= 128 {
+				seen["V:map>=128"] = true
+			}
 			for _, kv := range v.M {
 				if RefOmit(u.Key, kv.K) {
 					seen["V:zero-map-key"] = true
